@@ -195,6 +195,7 @@ func (v *Vue) evaluateNodeAsElement(ctx VueContext, node *html.Node, depth int) 
 	if helpers.HasAttr(node, "v-once") {
 		vSeenID := helpers.GetAttr(node, "v-once-id")
 		if ctx.seen[vSeenID] {
+			ctx.noteOnceSkip()
 			return nil, nil
 		}
 		ctx.seen[vSeenID] = true
